@@ -2,3 +2,6 @@ from propcfg.common import *
 from propcfg.tmplcommon import *
 
 CFG = dict(TMPL_C07)
+CFG["proof_modules"] = ["SafeHtml.Proofs.ApiFrames"]
+CFG["level_text"] = CFG["level_text"] + " Clone isolation is proved in Proofs/ApiFrames.lean for every reachable world: step_frame (what each operation may touch: only the receiver's name space, its objects and freshly allocated ones), frame_apiClone (Clone touches nothing that exists; the model shares nothing between a set and its clone), C07_clone_isolated (from the moment of cloning, operations on one side leave every execution of the other side's objects unchanged, in both directions)."
+CFG["level_note"] = "Known finding new-after-exec (t.New after execution). The isolation theorem is about objects; results through harness handle numbers after foreign Lookup/New/Clone rebinding are not covered."
